@@ -271,7 +271,7 @@ fn stub_lz4(_input: &[u8], min_uncompressed_size: usize) -> Result<Vec<u8>, lz4_
     unsafe {
         LZ4_CALLS += 1;
         LZ4_CLAIM = min_uncompressed_size;
-        if LZ4_FAIL { Err(lz4_flex::block::DecompressError::ExpectedAnotherByte) } else { Ok(Vec::new()) }
+        if LZ4_FAIL { Err(lz4_flex::block::DecompressError::ExpectedAnotherByte) } else { Ok(Vec::with_capacity(1)) }
     }
 }
 macro_rules! blte_lz4_prefix {
@@ -331,7 +331,7 @@ macro_rules! blte_lz4_prefix {
 // @family prop=C02 tier=quick timeout=900 role=blte-decompress-lz4-prefix
 // @bounds chunk body of concrete length N (name: n<N>: 0, 7, 8, 9, 16), every byte symbolic (so the 64-bit size claim is arbitrary), mode LZ4
 // @encodes cascette_formats::blte::compression::decompress_chunk
-// @assumes lz4_flex block decoder replaced by a stand-in that records the size claim it is given and returns Err / an empty vector; mode Z (zlib, third-party streaming decoder) outside; allocator spy
+// @assumes lz4_flex block decoder replaced by a stand-in that records the size claim it is given and returns Err / an empty vector with capacity 1 (chosen by the harness); mode Z (zlib, third-party streaming decoder) outside; allocator spy (the stand-in allocates 1 byte: an empty non-allocated Vec returned from a stub makes this Kani version report a spurious __rust_dealloc failure)
 // @catches cap compared with `>=` vs `>` / wrong constant, prefix read big-endian, cap checked after the decoder call, missing short-input check, size mismatch not rejected
 blte_lz4_prefix!(c02_blte_lz4_prefix_n0, 0);
 blte_lz4_prefix!(c02_blte_lz4_prefix_n7, 7);
@@ -374,3 +374,49 @@ macro_rules! blte_header_rt {
 }
 // NOT REGISTERED: BlteHeader read/write round trip (same infeasibility as above); the per-entry round trip is part of
 // the blte-chunk-info family.
+
+// ---- the two binrw try_map sites (fix 6282cac): undefined table-format / encryption-type bytes are errors --------------
+// NOT REGISTERED (measured: CBMC out of memory at 16 GB after 425 s even with only the format byte symbolic)
+// harness prop=C02 role=blte-header-table-format-byte
+// @bounds 12-byte header "BLTE" + header_size 12 + table-format byte SYMBOLIC (all 256 values) + chunk count 0; magic, size and count concrete (a fully symbolic header does not finish: binrw error drop glue)
+// @encodes cascette_formats::blte::header::BlteHeader::read_options, cascette_formats::blte::header::ExtendedHeader::read_options, cascette_formats::blte::header::HeaderFlags::from_byte
+// @assumes std::fmt::format stubbed (error text)
+// @catches regression of fix 6282cac: `expect` / unwrap on an undefined table-format byte (panic instead of Err); accepting an undefined format
+#[kani::proof]
+#[kani::unwind(5)]
+#[kani::stub(std::fmt::format, fmt_format_empty)]
+fn c02_blte_header_table_format_byte() {
+    let fb: u8 = kani::any();
+    let d: [u8; 12] = [b'B', b'L', b'T', b'E', 0, 0, 0, 12, fb, 0, 0, 0];
+    let mut c = Cursor::new(&d[..]);
+    let r = BlteHeader::read_options(&mut c, Endian::Big, ());
+    kani::cover!(r.is_ok(), "defined format accepted");
+    kani::cover!(r.is_err(), "undefined format rejected");
+    assert!(r.is_ok() == (fb == 0x0F || fb == 0x10), "header accepted iff the table-format byte is 0x0F or 0x10");
+    std::mem::forget(r);
+}
+
+// NOT REGISTERED (measured: CBMC out of memory after 734 s with only key name / iv / type byte symbolic)
+// harness prop=C02 role=blte-encrypted-header-type-byte
+// @bounds 15-byte encrypted-chunk header [8][key name: 8 symbolic bytes][4][iv: 4 symbolic bytes][type byte SYMBOLIC]; the two length bytes concrete
+// @encodes cascette_formats::blte::encryption::EncryptedHeader::read_options, cascette_formats::blte::encryption::EncryptionType::from_byte
+// @assumes std::fmt::format stubbed (error text)
+// @catches regression of fix 6282cac: `expect` on an undefined encryption-type byte (panic instead of Err); accepting an undefined type
+#[kani::proof]
+#[kani::unwind(10)]
+#[kani::stub(std::fmt::format, fmt_format_empty)]
+fn c02_blte_encrypted_header_type_byte() {
+    let kn: [u8; 8] = kani::any();
+    let iv: [u8; 4] = kani::any();
+    let tb: u8 = kani::any();
+    let d: [u8; 15] = [8, kn[0], kn[1], kn[2], kn[3], kn[4], kn[5], kn[6], kn[7], 4, iv[0], iv[1], iv[2], iv[3], tb];
+    let mut c = Cursor::new(&d[..]);
+    let r = EncryptedHeader::read_options(&mut c, Endian::Big, ());
+    kani::cover!(r.is_ok(), "defined type accepted");
+    kani::cover!(r.is_err(), "undefined type rejected");
+    assert!(r.is_ok() == (tb == b'S' || tb == b'A'), "encrypted header accepted iff the type byte is 'S' or 'A'");
+    if let Ok(h) = &r {
+        assert!(h.key_name.len() == 8 && h.iv.len() == 4 && h.key_id() == u64::from_le_bytes(kn), "key name / iv fields");
+    }
+    std::mem::forget(r);
+}
